@@ -28,7 +28,8 @@ for d in sorted(glob.glob(os.path.join(V, "seeded", "*"))):
         note = "missed at first: " + ver["missed_at_first"]
     if "not_caught" in ver:
         note = ver["not_caught"]
-    rows.append((name, m["property"], what, needs, ", ".join(caught) or "-", ", ".join(others), note))
+    prop = m["property"] + ("".join(" +" + x for x in m.get("also_breaks", []) if x.startswith("C")))
+    rows.append((name, prop, what, needs, ", ".join(caught) or "-", ", ".join(others), note))
 out = ["| change | breaks | what it changes | what it needs | caught by (own check, quick tier) | also caught by | note |", "|---|---|---|---|---|---|---|"]
 for r in rows:
     out.append("| " + " | ".join(x.replace("|", "\\|") for x in r) + " |")
